@@ -25,15 +25,6 @@ C integer semantics (host: LP64, gcc, two's complement), made explicit in the ou
   * helper meanings (`u32`, `s64`, `band`, `sbor`, `subLoop`, ...) are in lean/Pixman/Lemmas/CSem.lean.
 A function with `assert`s gets a companion `<name>_ok : Bool` (all assertions reached hold).
 
-Wave 2 additions: mode "mixed" (unsigned C types are Lean `Nat`, signed ones `Int`; conversions between them are
-`Int.ofNat` / `Int.toNat (uN ..)`); `switch` (desugared to an if-chain; fall-through duplicates the following case;
-`if (c) break;` inside a case becomes `if (c) {} else {rest}`); memory operands given as access paths
-(`image->common.transform->matrix[2][0]`) whose C type is resolved through the struct/union definitions of the
-preprocessed text and must equal the type declared in TARGETS ("ptr": only NULL tests; "bool": an uninterpreted 0/1
-sub-expression such as a `double` comparison; `name@i`: indexed by the variable of a search loop); local pointer
-aliases (`T (*t)[3] = path;`); search loops `for (i = 0; i < n; ++i) if (C(i)) { S; break; }` (= `if (anyBelow n C) S`);
-`stages`: every if/switch join becomes its own definition `<name>_sN`, so that bridges can be proved join by join.
-
 Fail closed: a directive, type, token, statement or expression form that is not understood, a
 target that is not found, a variable read before it is assigned -- all exit non-zero (the engine
 reports a broken extraction obligation)."""
@@ -75,11 +66,6 @@ def fail(msg):
 #   xmacros  True                       keep the macros of pixman-combine32.h that gen_combine32.py translates
 #                                        as calls of Pixman.Gen.Combine32Macros (nat mode)
 #   out kind "in"                       pointer parameter that is only read
-#   unroll   True                       `for (i = 0; i < K; ++i)` with a literal K <= 16 is unrolled (i a constant)
-#   extern   {name: spec}               calls of functions that are not translated: the function becomes a
-#                                        parameter (an oracle) of the generated definition.  spec = dict(ret=C type,
-#                                        params=[("same", identifier) | ("struct", struct type)])
-#   stages   True                       every if/switch join becomes its own definition <name>_sN
 #   consts   {param: value}             specialise an integer parameter to a constant (e.g. the depth n)
 #   nonnull  [pointer params]           `if (p)` on these is TRUE (caller always passes an address)
 TARGETS = [
@@ -115,8 +101,6 @@ TARGETS = [
     dict(file="pixman/pixman-utils.c", func="pixman_malloc_ab_plus_c", mode="int", ret="malloc"),
     # ---- pixman.c, pixman-glyph.c
     dict(file="pixman/pixman.c", func="color_to_uint32", mode="nat", structs={"color": "pixman_color_t"}),
-    dict(file="pixman/pixman.c", func="color_to_pixel", mode="nat", structs={"color": "pixman_color_t"},
-         out={"pixel": "inout"}),
     dict(file="pixman/pixman-glyph.c", func="hash", name="glyph_hash", mode="nat", ptrvals=["font_key", "glyph_key"]),
 ]
 
@@ -154,80 +138,6 @@ def c32_targets():
 
 
 TARGETS += c32_targets()
-
-def image_info_target():
-    mem = {"image->common.transform": ("transform", "ptr")}
-    for i in range(3):
-        for j in range(3):
-            mem[f"image->common.transform->matrix[{i}][{j}]"] = (f"t{i}{j}", "pixman_fixed_t")
-    mem.update({
-        "image->common.filter": ("filter", "pixman_filter_t"),
-        "image->common.repeat": ("repeat_", "pixman_repeat_t"),
-        "image->common.component_alpha": ("component_alpha", "pixman_bool_t"),
-        "image->type": ("itype", "image_type_t"),
-        "image->solid.color.alpha": ("solid_alpha", "uint16_t"),
-        "image->bits.width": ("width", "int"),
-        "image->bits.height": ("height", "int"),
-        "image->bits.format": ("format", "pixman_format_code_t"),
-        "image->bits.read_func": ("read_func", "ptr"),
-        "image->bits.write_func": ("write_func", "ptr"),
-        "image->radial.a >= 0": ("radial_a_nonneg", "bool"),
-        "image->gradient.n_stops": ("n_stops", "int"),
-        "image->gradient.stops[i].color.alpha": ("stop_alpha@i", "uint16_t"),
-        "image->common.alpha_map": ("alpha_map", "ptr"),
-        "image->common.alpha_map->format": ("alpha_map_format", "pixman_format_code_t"),
-        "image->common.flags": ("flags_out", "uint32_t"),
-        "image->common.extended_format_code": ("code_out", "pixman_format_code_t"),
-    })
-    return dict(file="pixman/pixman-image.c", func="compute_image_info", mode="mixed", drop=["image"], mem=mem,
-                stages=True)
-
-
-TARGETS.append(image_info_target())
-
-def extent_targets():
-    tp = {"pixman_transform_point": dict(ret="pixman_bool_t", params=[("same", "transform"), ("struct", "pixman_vector_t")])}
-    cte = dict(file="pixman/pixman.c", func="compute_transformed_extents", mode="mixed", ptrvals=["transform"],
-               structs={"extents": "pixman_box32_t", "transformed": "box_48_16_t"}, unroll=True, extern=tp)
-    mem = {
-        "image->common.transform": ("transform_p", "ptr"),
-        "image->common.type": ("itype", "image_type_t"),
-        "image->bits.width": ("img_width", "int"),
-        "image->bits.height": ("img_height", "int"),
-        "image->common.repeat": ("repeat_", "pixman_repeat_t"),
-        "image->common.flags": ("image_flags", "uint32_t"),
-        "image->common.filter": ("filter", "pixman_filter_t"),
-        "image->common.filter_params[0]": ("param0", "pixman_fixed_t"),
-        "image->common.filter_params[1]": ("param1", "pixman_fixed_t"),
-    }
-    ae = dict(file="pixman/pixman.c", func="analyze_extent", mode="mixed", drop=["image"], nonnull=["image"],
-              structs={"extents": "pixman_box32_t"}, out={"flags": "inout"}, mem=mem, extern=tp, stages=True)
-    return [cte, ae]
-
-
-TARGETS += extent_targets()
-
-def glyph_cond_targets():
-    G = "pixman/pixman-glyph.c"
-    cnt = {"cache->n_glyphs": ("n_glyphs", "int"), "cache->n_tombstones": ("n_tombstones", "int"),
-           "cache->freeze_count": ("freeze_count", "int")}
-    thaw = dict(cnt)
-    thaw["--cache->freeze_count"] = ("freeze_count_after", "bool")
-    return [
-        dict(kind="cond", file=G, func="pixman_glyph_cache_thaw", name="glyph_thaw_outer", index=0, mode="mixed", mem=thaw,
-             expect=["freeze_count", "n_glyphs", "n_tombstones"]),
-        dict(kind="cond", file=G, func="pixman_glyph_cache_thaw", name="glyph_thaw_dump", index=1, mode="mixed", mem=cnt,
-             expect=["n_tombstones"]),
-        dict(kind="cond", file=G, func="pixman_glyph_cache_thaw", name="glyph_thaw_evict", index=2, mode="mixed", mem=cnt,
-             expect=["n_glyphs"]),
-        dict(kind="cond", file=G, func="pixman_glyph_cache_insert", name="glyph_insert_frozen", index=0, mode="mixed", mem=cnt,
-             expect=["freeze_count"]),
-        dict(kind="cond", file=G, func="pixman_glyph_cache_insert", name="glyph_insert_full", index=4, mode="mixed", mem=cnt,
-             expect=["n_glyphs", "n_tombstones"]),
-    ]
-
-
-TARGETS += glyph_cond_targets()
 
 LEAN_KEYWORDS = {"at", "from", "end", "open", "show", "have", "fun", "let", "then", "do", "in", "if", "else", "by",
                  "at", "with", "match", "where", "for", "def", "theorem", "instance", "structure", "class", "namespace",
@@ -323,8 +233,7 @@ def preprocess(repo, rel, scratch, defs=(), keep_macros=None):
 
 # =============================================================================== lexer
 TOK = re.compile(r"""\s*(?:
-    ("(?:[^"\\]|\\.)*")                            # string literal (only skipped over)
-  | (0[xX][0-9a-fA-F]+|\d+)([uUlL]*)(?![\w.])      # integer literal
+    (0[xX][0-9a-fA-F]+|\d+)([uUlL]*)(?![\w.])      # integer literal
   | ([A-Za-z_]\w*)                                 # identifier
   | (<<=|>>=|\+\+|--|->|<<|>>|\+=|-=|\*=|/=|%=|\|=|&=|\^=|==|!=|<=|>=|&&|\|\||[-+*/%&|^~!()<>=,;{}?:.\[\]])
 )""", re.X)
@@ -341,13 +250,11 @@ def lex(text):
         if not m or m.end() == i:
             fail(f"cannot tokenize: {text[i:i+40]!r}")
         if m.group(1) is not None:
-            out.append(("str", m.group(1)))
-        elif m.group(2) is not None:
-            out.append(("num", (int(m.group(2), 0), m.group(3).lower(), m.group(2)[:2].lower() == "0x" or (m.group(2)[0] == "0" and len(m.group(2)) > 1))))
-        elif m.group(4) is not None:
-            out.append(("id", m.group(4)))
+            out.append(("num", (int(m.group(1), 0), m.group(2).lower(), m.group(1)[:2].lower() == "0x" or (m.group(1)[0] == "0" and len(m.group(1)) > 1))))
+        elif m.group(3) is not None:
+            out.append(("id", m.group(3)))
         else:
-            out.append(("op", m.group(5)))
+            out.append(("op", m.group(4)))
         i = m.end()
     return out
 
@@ -448,9 +355,8 @@ class Env:
                     self.enum_of.setdefault(nm, body)
         self.enum_cache = {}
         self.structs = {}
-        for m in re.finditer(r"\b(?:struct|union)\s+(\w+)\s*\{([^{}]*)\}", text):
+        for m in re.finditer(r"\bstruct\s+(\w+)\s*\{([^{}]*)\}", text):
             self.structs.setdefault(m.group(1), m.group(2))
-        self.fields2_cache = {}
 
     def enum_values(self, body):
         if body in self.enum_cache:
@@ -486,7 +392,7 @@ class Env:
         return INT if any(v < 0 for v in vals.values()) else UINT
 
     def is_type_start(self, name):
-        return name in TYPE_WORDS or name in QUALS or name in ("struct", "union", "enum", "void", "double", "float") or name in self.typedefs \
+        return name in TYPE_WORDS or name in QUALS or name in ("struct", "enum", "void") or name in self.typedefs \
             or name in self.enum_types
 
     def resolve(self, words, depth=0):
@@ -496,12 +402,10 @@ class Env:
         ws = [w for w in words if w not in QUALS]
         if ws == ["void"]:
             return ("void",)
-        if ws in (["double"], ["float"]):
-            return ("float",)
         bt = builtin_type(ws)
         if bt:
             return bt
-        if len(ws) == 2 and ws[0] in ("struct", "union"):
+        if len(ws) == 2 and ws[0] == "struct":
             return ("struct", ws[1])
         if len(ws) == 2 and ws[0] == "enum":
             if "enum " + ws[1] in self.enum_types:
@@ -513,83 +417,6 @@ class Env:
             if ws[0] in self.typedefs:
                 return self.resolve(self.typedefs[ws[0]].split(), depth + 1)
         fail(f"unknown type {' '.join(words)!r}")
-
-    def fields2(self, tag):
-        """members of struct/union `tag`: name -> (type, nptr, ndims) (None for members not understood)"""
-        if tag in self.fields2_cache:
-            return self.fields2_cache[tag]
-        if tag not in self.structs:
-            fail(f"struct/union {tag} has no visible definition")
-        out = {}
-        for decl in self.structs[tag].split(";"):
-            if not decl.strip():
-                continue
-            try:
-                pp = Parser(lex(decl), self)
-                t = pp.try_type()
-                if t is None:
-                    raise Fail("type")
-                ty, nptr0 = t
-                first = True
-                while True:
-                    np = nptr0 if first else 0
-                    while pp.at("op", "*"):
-                        pp.eat()
-                        np += 1
-                    nm = pp.eat("id")
-                    nd = 0
-                    while pp.at("op", "["):
-                        pp.eat()
-                        pp.expr()
-                        pp.eat("op", "]")
-                        nd += 1
-                    out[nm] = (ty, np, nd)
-                    first = False
-                    if pp.at("op", ","):
-                        pp.eat()
-                        continue
-                    break
-                if pp.i != len(pp.t):
-                    raise Fail("trailing")
-            except Fail:
-                for w in re.findall(r"[A-Za-z_]\w*", decl):
-                    out.setdefault(w, None)
-        self.fields2_cache[tag] = out
-        return out
-
-    def is_funcptr_typedef(self, name):
-        return re.search(r"\btypedef\b[^;{}]*\(\s*\*\s*" + re.escape(name) + r"\s*\)", self.text) is not None
-
-    def path_type(self, ast, roots):
-        """C type (type, nptr, ndims) of an access path built from `->`/`.`/`[]`/`*` over the parameters
-        `roots` (name -> (type, nptr)); fail closed"""
-        k = ast[0]
-        if k == "id":
-            if ast[1] not in roots:
-                fail(f"memory operand: unknown root {ast[1]}")
-            t, np = roots[ast[1]]
-            return (t, np, 0)
-        if k == "field":
-            t, np, nd = self.path_type(ast[1], roots)
-            if nd or np > 1 or not (isinstance(t, tuple) and t[0] == "struct"):
-                fail(f"memory operand: member {ast[2]} of a non-struct")
-            f = self.fields2(t[1])
-            if ast[2] not in f:
-                fail(f"memory operand: struct {t[1]} has no member {ast[2]}")
-            if f[ast[2]] is None:
-                return (("unknown",), 0, 0)
-            return f[ast[2]]
-        if k == "deref":
-            inner = ast[1]
-            if inner[0] == "bin" and inner[1] == "+":
-                inner = inner[2]
-            t, np, nd = self.path_type(inner, roots)
-            if nd:
-                return (t, np, nd - 1)
-            if np:
-                return (t, np - 1, 0)
-            fail("memory operand: dereference of a non-pointer")
-        fail(f"memory operand: unsupported access path ({k})")
 
     def struct_fields(self, tyname):
         t = self.resolve([tyname]) if isinstance(tyname, str) else tyname
@@ -643,7 +470,7 @@ class Parser:
         while self.peek()[0] == "id" and (self.env.is_type_start(self.peek()[1])):
             w = self.eat()
             words.append(w)
-            if w in ("struct", "union", "enum"):
+            if w in ("struct", "enum"):
                 words.append(self.eat("id"))
             elif w in self.env.typedefs or w in self.env.enum_types:
                 # a typedef name ends the specifier unless followed by qualifiers
@@ -825,33 +652,7 @@ class Parser:
             step = None if self.at("op", ")") else self.expr()
             self.eat("op", ")")
             return ("for", init, c, step, self.stmt())
-        if k == "id" and v == "switch":
-            self.eat()
-            self.eat("op", "(")
-            e = self.expr()
-            self.eat("op", ")")
-            self.eat("op", "{")
-            items = []
-            while not self.at("op", "}"):
-                if self.at("id", "case"):
-                    self.eat()
-                    c = self.cond()
-                    self.eat("op", ":")
-                    items.append(("case", c))
-                elif self.at("id", "default"):
-                    self.eat()
-                    self.eat("op", ":")
-                    items.append(("default",))
-                else:
-                    st = self.stmt()
-                    items.extend(st[1] if st[0] == "seq" else [st])
-            self.eat("op", "}")
-            return ("switch", e, items)
-        if k == "id" and v == "break":
-            self.eat()
-            self.eat("op", ";")
-            return ("break",)
-        if k == "id" and v in ("goto", "continue", "case", "default"):
+        if k == "id" and v in ("switch", "goto", "break", "continue", "case", "default"):
             fail(f"statement `{v}` is not supported")
         if k == "id" and v == "__verif_assert":
             self.eat()
@@ -860,7 +661,7 @@ class Parser:
             self.eat("op", ")")
             self.eat("op", ";")
             return ("assert", e)
-        if k == "id" and self.env.is_type_start(v) and not (self.peek(1) == ("op", "(") and v not in QUALS and self.peek(2) != ("op", "*")):
+        if k == "id" and self.env.is_type_start(v) and not (self.peek(1) == ("op", "(") and v not in QUALS):
             t = self.try_type()
             if t is None:
                 fail(f"declaration not understood at {v}")
@@ -871,19 +672,7 @@ class Parser:
                 while self.at("op", "*"):
                     self.eat()
                     np += 1
-                if self.at("op", "(") and self.peek(1) == ("op", "*"):
-                    # pointer-to-array declarator `(*t)[3]`: only as an alias of an lvalue
-                    self.eat()
-                    self.eat()
-                    nm = self.eat("id")
-                    self.eat("op", ")")
-                    while self.at("op", "["):
-                        self.eat()
-                        self.eat("num")
-                        self.eat("op", "]")
-                    np += 1
-                else:
-                    nm = self.eat("id")
+                nm = self.eat("id")
                 if self.at("op", "["):
                     fail(f"array declaration of {nm}")
                 init = None
@@ -1016,8 +805,6 @@ class Translator:
         self.env, self.tgt = env, tgt
         self.mode = tgt.get("mode", "int")
         self.nat = self.mode == "nat"
-        if self.mode not in ("int", "nat", "mixed"):
-            fail(f"{tgt['func']}: unknown mode {self.mode}")
         self.consts = dict(consts or {})
         self.const_types = {}
         self.ptrvals = set()
@@ -1029,65 +816,26 @@ class Translator:
         self.assigned = []
         self.mem = []                   # [(ast, varname)]
         self.tmp = 0
-        self.local_structs = {}         # local struct variable -> struct type
-        self.ptr_locals = set()         # declared pointer locals (aliases once assigned)
-        self.oracle_log = []            # every use of an oracle, in order
-        self.oracles_used = []          # extern (oracle) functions this function calls, directly or through callees
-        self.read_log = []              # names of variables read, in order
-        self.written = set()            # variables certainly assigned on the current path
-        self.input_reads = set()        # variables read while possibly still holding their initial value
-        self.aux = []                   # auxiliary (stage) definitions: (name, text)
-        self.depth = 0                  # block nesting depth of the statement being translated
-        self.aliases = {}               # local pointer alias -> AST it stands for
-        self.mem_indexed = {}           # operand name -> loop variable it is indexed by
-        self.loopvars = {}              # C loop variable -> Lean Nat variable bound by a search loop
         self.xmacros = {}               # macros kept as calls of Pixman.Gen.Combine32Macros
         self.uses_ok = []               # _ok conjuncts from calls: filled by statement translation
 
     # ---- helpers
-    def natty(self, ty):
-        """is a value of C type ty a Lean `Nat` (else `Int`)?  nat mode: always; int mode: never;
-        mixed mode: unsigned types are `Nat`, signed types are `Int`"""
-        if self.mode == "mixed":
-            return not ty.signed
-        return self.nat
-
-    def ltype(self, ty):
-        return "Nat" if self.natty(ty) else "Int"
-
-    def lit(self, v, ty):
-        if self.natty(ty):
+    def lit(self, v):
+        if self.nat:
             if v < 0:
                 return f"NEGATIVE_CONSTANT_{-v}"       # fails the run if it survives into the output
             return str(v)
         return str(v) if v >= 0 else f"({v})"
 
     def konst(self, v, ty):
-        return E(self.lit(v, ty), ty, const=v)
+        return E(self.lit(v), ty, const=v)
 
-    def wrap_s(self, s, ty, src_nat=None):
-        """text of the conversion (with wrap) of `s` to ty; src_nat: is `s` a Nat term (default: as ty)"""
-        dst_nat = self.natty(ty)
-        if src_nat is None:
-            src_nat = dst_nat
-        if dst_nat:
+    def wrap_s(self, s, ty):
+        if self.nat:
             if ty.signed:
                 fail(f"{self.tgt['func']}: conversion to a signed type that may wrap, in nat mode")
-            if src_nat:
-                return f"{atom(s)} % {ty.mod}"
-            return f"Int.toNat ({ty.wrapname()} {atom(s)})"
-        if src_nat:
-            return f"{ty.wrapname()} (Int.ofNat {atom(s)})"
+            return f"{atom(s)} % {ty.mod}"
         return f"{ty.wrapname()} {atom(s)}"
-
-    def retype(self, e, ty):
-        """value-preserving change of C type: adjust the Lean type of the text if it differs"""
-        a, b = self.natty(e.ty), self.natty(ty)
-        if a == b:
-            return E(e.s, ty, e.lo, e.hi)
-        if a:
-            return E(f"Int.ofNat {atom(e.s)}", ty, e.lo, e.hi)
-        return E(f"Int.toNat {atom(e.s)}", ty, e.lo, e.hi)
 
     def conv(self, e, ty, explicit=False):
         """value of e converted to ty.  explicit: assignment / cast / argument / return (C converts
@@ -1097,16 +845,16 @@ class Translator:
         s = e.ty
         if ty.lo <= e.lo and e.hi <= ty.hi and (e.inrange or not explicit):
             # representable: value unchanged
-            return self.retype(e, ty)
+            return E(e.s, ty, e.lo, e.hi)
         if not explicit and ty.signed and s.signed and s.bits <= ty.bits:
             # implicit widening of a signed operand inside an expression: exact arithmetic continues
-            return self.retype(e, ty)
+            return E(e.s, ty, e.lo, e.hi)
         if self.nat and ty.signed:
             if s.signed and s.bits <= ty.bits and e.lo >= 0:
                 # exact signed arithmetic that may overflow (undefined in C): kept exact in nat mode
                 return E(e.s, ty, e.lo, e.hi)
             fail(f"{self.tgt['func']}: value of type {s} may not fit {ty} (nat mode)")
-        return E(self.wrap_s(e.s, ty, self.natty(s)), ty)
+        return E(self.wrap_s(e.s, ty), ty)
 
     # ---- variables
     def read_var(self, name):
@@ -1115,9 +863,6 @@ class Translator:
         if name not in self.defined:
             fail(f"{self.tgt['func']}: {name} is read before it is assigned")
         ty = self.vars[name]
-        self.read_log.append(name)
-        if name not in self.written:
-            self.input_reads.add(name)
         if name in self.varrange:
             lo, hi = self.varrange[name]
             return E(lname(name), ty, max(lo, ty.lo), min(hi, ty.hi))
@@ -1125,90 +870,18 @@ class Translator:
             return E(lname(name), ty, 0, ty.hi)
         return E(lname(name), ty)
 
-    def subst(self, e):
-        """replace local pointer aliases by what they stand for"""
-        if not self.aliases or not isinstance(e, tuple) or not e or e[0] == "num":
-            return e
-        if e[0] == "id" and e[1] in self.aliases:
-            return self.aliases[e[1]]
-        return tuple(self.subst(x) if isinstance(x, tuple) else
-                     ([self.subst(y) for y in x] if isinstance(x, list) else x) for x in e)
-
-    def is_struct_var(self, n):
-        return n in self.tgt.get("structs", {}) or n in self.local_structs
-
-    def register_struct(self, nm, ty, defined):
-        """member variables `nm_f` (scalars) and `nm_f_k` (1-D arrays of constant size) of a struct variable"""
-        if not (isinstance(ty, tuple) and ty[0] == "struct"):
-            fail(f"{self.tgt['func']}: {nm} is not a struct")
-        body = self.env.structs.get(ty[1])
-        if body is None:
-            fail(f"{self.tgt['func']}: struct {ty[1]} has no visible definition")
-        names = []
-        for f, t in self.env.fields2(ty[1]).items():
-            if t is None:
-                continue
-            fty, np, nd = t
-            if np or not isinstance(fty, CT):
-                continue
-            if nd == 0:
-                names.append(nm + "_" + f)
-            elif nd == 1:
-                m = re.search(r"\b" + re.escape(f) + r"\s*\[\s*(\d+)\s*\]", body)
-                if not m or int(m.group(1)) > 16:
-                    continue
-                names += [f"{nm}_{f}_{k}" for k in range(int(m.group(1)))]
-            else:
-                continue
-            for v in names:
-                if v not in self.vars:
-                    self.vars[v] = fty
-                    if defined:
-                        self.defined.add(v)
-        return names
-
-    def struct_members(self, nm):
-        ty = self.local_structs.get(nm)
-        if ty is None:
-            ty = self.env.resolve([self.tgt["structs"][nm]])
-        out = []
-        body = self.env.structs.get(ty[1], "")
-        for f, t in self.env.fields2(ty[1]).items():
-            if t is None or t[1] or not isinstance(t[0], CT):
-                continue
-            if t[2] == 0:
-                out.append(f)
-            elif t[2] == 1:
-                m = re.search(r"\b" + re.escape(f) + r"\s*\[\s*(\d+)\s*\]", body)
-                if m and int(m.group(1)) <= 16:
-                    out += [f"{f}_{k}" for k in range(int(m.group(1)))]
-        return out
-
-    def mem_lookup(self, e):
-        for ast, nm in self.mem:
-            if ast == e:
-                return nm
-        return None
-
     def lvalue(self, e):
         """C lvalue expression -> variable name"""
-        e = self.subst(e)
         if e[0] == "id":
             if e[1] in self.vars:
                 return e[1]
             fail(f"{self.tgt['func']}: unknown identifier {e[1]}")
         if e[0] == "deref" and e[1][0] == "id" and e[1][1] in self.tgt.get("out", {}):
             return e[1][1]
-        if e[0] == "field" and e[1][0] == "id" and self.is_struct_var(e[1][1]):
+        if e[0] == "field" and e[1][0] == "id" and e[1][1] in self.tgt.get("structs", {}):
             nm = e[1][1] + "_" + e[2]
             if nm not in self.vars:
                 fail(f"{self.tgt['func']}: struct member {e[1][1]}.{e[2]} unknown")
-            return nm
-        if e[0] == "deref" and e[1][0] == "bin" and e[1][1] == "+" and e[1][2][0] == "field" and \
-                e[1][2][1][0] == "id" and self.is_struct_var(e[1][2][1][1]) and e[1][3][0] == "num":
-            nm = f"{e[1][2][1][1]}_{e[1][2][2]}_{e[1][3][1][0]}"
-            if nm not in self.vars:
-                fail(f"{self.tgt['func']}: struct array member {nm} unknown")
             return nm
         for ast, nm in self.mem:
             if ast == e:
@@ -1217,20 +890,7 @@ class Translator:
 
     # ---- expressions (pure: no side effects allowed here)
     def ex(self, e):
-        e = self.subst(e)
         k = e[0]
-        if k == "lean_cond":
-            return self.boolof(e[1])
-        if k not in ("num", "id"):
-            nm = self.mem_lookup(e)
-            if nm is not None:
-                if nm in self.mem_indexed:
-                    lv = self.mem_indexed[nm]
-                    if lv not in self.loopvars:
-                        fail(f"{self.tgt['func']}: indexed operand {nm} used outside its search loop")
-                    self.read_log.append(nm)
-                    return E(f"{lname(nm)} {self.loopvars[lv]}", self.vars[nm])
-                return self.read_var(nm)
         if k == "num":
             v, suf, nondec = e[1]
             u = "u" in suf
@@ -1247,8 +907,6 @@ class Translator:
             fail(f"integer literal {v} too large")
         if k == "id":
             n = e[1]
-            if n in self.loopvars:
-                return E(f"Int.ofNat {self.loopvars[n]}" if not self.natty(INT) else self.loopvars[n], INT, 0, INT.hi)
             if n in self.ptrvals:
                 fail(f"{self.tgt['func']}: pointer {n} used other than under an integer cast")
             if n in self.vars:
@@ -1315,17 +973,17 @@ class Translator:
                     return self.konst(v, ty)
                 return self.konst(ty.wrap(v), ty)
             if ty.signed:
-                if self.natty(ty):
+                if self.nat:
                     fail(f"{self.tgt['func']}: signed negation in nat mode")
                 return E(f"-{atom(a.s)}", ty, -a.hi, -a.lo)
-            if self.natty(ty):
+            if self.nat:
                 return E(f"({ty.mod} - {atom(a.s)}) % {ty.mod}", ty)
             return E(self.wrap_s(f"-{atom(a.s)}", ty), ty)
         if op == "~":
             if a.const is not None:
                 return self.konst(ty.wrap(~a.const), ty)
             if ty.signed:
-                if self.natty(ty):
+                if self.nat:
                     fail(f"{self.tgt['func']}: ~ on a signed value in nat mode")
                 return E(f"-{atom(a.s)} - 1", ty, -a.hi - 1, -a.lo - 1)
             return E(f"{ty.mod - 1} - {atom(a.s)}", ty)
@@ -1349,13 +1007,13 @@ class Translator:
             else:
                 lo, hi = imul((a.lo, a.hi), (b.lo, b.hi))
             if ty.signed:
-                if self.natty(ty) and op == "-" and lo < 0:
+                if self.nat and op == "-" and lo < 0:
                     if getattr(self, "in_shift_count", False):
                         # a negative shift count is undefined in C: truncated subtraction
                         return E(f"{A} - {B}", ty, 0, max(hi, 0))
                     fail(f"{self.tgt['func']}: signed subtraction that may be negative, in nat mode")
                 return E(f"{A} {op} {B}", ty, lo, hi)
-            if self.natty(ty):
+            if self.nat:
                 if op == "-":
                     return E(f"({A} + {ty.mod} - {B} % {ty.mod}) % {ty.mod}", ty)
                 return E(f"({A} {op} {B}) % {ty.mod}", ty)
@@ -1368,7 +1026,7 @@ class Translator:
                 rng = (0, a.hi) if nonneg else (None, None)
             else:
                 rng = (0, min(a.hi, b.hi - 1) if b.hi > 0 else 0) if nonneg else (None, None)
-            if nonneg or self.natty(ty):
+            if nonneg or self.nat:
                 if not nonneg:
                     fail(f"{self.tgt['func']}: signed division in nat mode")
                 return E(f"{A} {op} {B}", ty, *rng)
@@ -1414,10 +1072,10 @@ class Translator:
         nonneg = a.lo >= 0 and b.lo >= 0
         if op == "&":
             for x, y in ((a, b), (b, a)):
-                if y.const is not None and y.const >= 0 and (y.const & (y.const + 1)) == 0 and not self.natty(ty):
+                if y.const is not None and y.const >= 0 and (y.const & (y.const + 1)) == 0 and not self.nat:
                     # x & (2^k - 1)  =  x mod 2^k   (two's complement, any sign of x)
                     return E(f"{atom(x.s)} % {y.const + 1}", ty, 0, y.const)
-        if op == "&" and not self.natty(ty):
+        if op == "&" and not self.nat:
             for x, y in ((a, b), (b, a)):
                 if y.const is not None:
                     low = (-y.const) if ty.signed else (ty.mod - y.const)
@@ -1430,11 +1088,11 @@ class Translator:
                 hi = min(a.hi, b.hi)
             else:
                 hi = (1 << max(a.hi.bit_length(), b.hi.bit_length())) - 1
-            if self.natty(ty):
+            if self.nat:
                 return E(f"{A} {natop} {B}", ty, 0, hi)
             fn = {"&": "band", "|": "bor", "^": "bxor"}[op]
             return E(f"{fn} {A} {B}", ty, 0, hi)
-        if self.natty(ty):
+        if self.nat:
             fail(f"{self.tgt['func']}: bitwise operator on a possibly negative value in nat mode")
         if not ty.signed:
             fail("internal: unsigned operand with negative range")
@@ -1470,7 +1128,7 @@ class Translator:
                         fail("constant shift overflows")
                     return self.konst(v, ty)
                 return self.konst(ty.wrap(v), ty)
-            if self.natty(ty):
+            if self.nat:
                 if op == ">>":
                     return E(f"{A} >>> {k}", ty, a.lo >> k, a.hi >> k)
                 if ty.signed:
@@ -1485,14 +1143,13 @@ class Translator:
         # variable count
         if b.lo < 0 and self.nat:
             fail(f"{self.tgt['func']}: shift count may be negative (nat mode)")
-        cnt = atom(b.s) if self.natty(b.ty) else f"({b.s}).toNat"
-        if self.natty(ty):
+        if self.nat:
             if op == ">>":
-                return E(f"{A} >>> {cnt}", ty, 0, a.hi)
+                return E(f"{A} >>> {atom(b.s)}", ty, 0, a.hi)
             if ty.signed:
-                return E(f"{A} <<< {cnt}", ty, a.lo, a.hi << min(b.hi, 64))
-            return E(f"({A} <<< {cnt}) % {ty.mod}", ty)
-        pw = f"2 ^ {cnt}"
+                return E(f"{A} <<< {atom(b.s)}", ty, a.lo, a.hi << min(b.hi, 64))
+            return E(f"({A} <<< {atom(b.s)}) % {ty.mod}", ty)
+        pw = f"2 ^ ({b.s}).toNat"
         if op == ">>":
             lo = min(a.lo, 0) if a.lo < 0 else 0
             return E(f"{A} / {pw}", ty, min(a.lo, 0), max(a.hi, 0))
@@ -1546,13 +1203,6 @@ class Translator:
 
     def cond(self, e):
         """C expression used as a condition -> Prop text"""
-        e = self.subst(e)
-        if e[0] == "lean_cond":
-            return e[1]
-        if e[0] == "call" and e[1] == "__builtin_expect" and len(e[2]) == 2 and not side_effect(e[2][1]):
-            return self.cond(e[2][0])
-        if self.mem_lookup(e) is not None:
-            return self.truth(self.ex(e))
         if e[0] == "bin" and e[1] in ("&&", "||"):
             a, b = self.cond(e[2]), self.cond(e[3])
             if e[1] == "&&":
@@ -1580,8 +1230,6 @@ class Translator:
             return "True"
         if e[0] == "id" and e[1] in self.tgt.get("null", []):
             return "False"
-        if e[0] == "id" and e[1] in self.ptrvals:
-            return f"{lname(e[1])} ≠ 0"
         return self.truth(self.ex(e))
 
     def boolval(self, e):
@@ -1610,8 +1258,8 @@ class Translator:
     def call_value(self, e):
         name, args = e[1], e[2]
         if name in self.xmacros:
-            if not self.natty(UINT):
-                fail(f"{self.tgt['func']}: combine32 macros are available in nat / mixed mode only")
+            if not self.nat:
+                fail(f"{self.tgt['func']}: combine32 macros are available in nat mode only")
             if self.xmacros[name][3]:
                 fail(f"{self.tgt['func']}: statement macro {name} used as a value")
             ins, _ = self.xmacro_args(name, args)
@@ -1622,22 +1270,12 @@ class Translator:
         fi = self.funcs[name]
         if fi.outs:
             fail(f"{self.tgt['func']}: {name} has out-parameters; call it as a statement `x = {name} (...)`")
-        self.check_callee_types(fi)
+        if fi.mode != self.mode:
+            fail(f"{self.tgt['func']}: {name} is translated in mode {fi.mode}")
         if fi.ret is None:
             fail(f"{self.tgt['func']}: value of void function {name}")
         s = self.call_text(fi, args, {})
         return E(s, fi.ret)
-
-    def check_callee_types(self, fi):
-        """a call is possible when callee and caller give every argument/result the same Lean type"""
-        if fi.mode == self.mode:
-            return
-        for v, lt in fi.ltypes.items():
-            ct = fi.input_types.get(v) or fi.out_types.get(v)
-            if ct is not None and self.ltype(ct) != lt:
-                fail(f"{self.tgt['func']}: {fi.cname} ({fi.mode} mode) has {v} : {lt}; the caller ({self.mode} mode) needs {self.ltype(ct)}")
-        if fi.ret_ltype is not None and isinstance(fi.ret, CT) and self.ltype(fi.ret) != fi.ret_ltype:
-            fail(f"{self.tgt['func']}: {fi.cname} returns a {fi.ret_ltype}; the caller needs {self.ltype(fi.ret)}")
 
     def call_text(self, fi, args, outmap):
         """Lean application text; outmap receives out-parameter -> caller variable"""
@@ -1668,29 +1306,17 @@ class Translator:
                 if c.const is None or pt.wrap(c.const) != fi.consts[pn]:
                     fail(f"{self.tgt['func']}: {fi.cname} is specialised to {pn} = {fi.consts[pn]}; argument differs")
             elif pk == "struct":
-                base = a[1] if a[0] == "id" else (a[1][1] if a[0] == "addr" and a[1][0] == "id" else None)
-                if base is None or not self.is_struct_var(base):
-                    fail(f"{self.tgt['func']}: struct argument for {pn} of {fi.cname} must be a struct variable or its address")
+                if not (a[0] == "id" and a[1] in self.tgt.get("structs", {})):
+                    fail(f"{self.tgt['func']}: struct argument for {pn} of {fi.cname} must be a struct parameter of the caller")
                 pre = pn + "_"
                 for i in fi.inputs:
                     if i.startswith(pre):
-                        cv = base + "_" + i[len(pre):]
-                        if cv in self.vars and cv not in self.defined and base in self.local_structs:
-                            # uninitialised member of a local struct passed by address: the callee can only hand the
-                            # indeterminate value back (reading it would be undefined in C): 0 stands for it
-                            vals[i] = "0"
-                        else:
-                            vals[i] = atom(self.conv(self.read_var(cv), fi.input_types[i], explicit=True).s)
+                        vals[i] = atom(self.read_var(a[1] + "_" + i[len(pre):]).s)
                 for o in fi.outs:
                     if o.startswith(pre) and o not in fi.param_outs:
-                        outmap[o] = base + "_" + o[len(pre):]
+                        outmap[o] = a[1] + "_" + o[len(pre):]
                         if outmap[o] not in self.vars:
                             fail(f"{self.tgt['func']}: no member {outmap[o]}")
-                        if self.vars[outmap[o]] != fi.out_types[o]:
-                            fail(f"{self.tgt['func']}: member {outmap[o]} has another type than {fi.cname} stores")
-            elif pk == "same":
-                if a != ("id", pt):
-                    fail(f"{self.tgt['func']}: {fi.cname} stands for the call with {pn} = {pt}; argument differs")
             else:
                 fail(f"{self.tgt['func']}: cannot pass parameter {pn} of {fi.cname} (kind {pk})")
         for i in fi.inputs:
@@ -1699,15 +1325,6 @@ class Translator:
                 if i not in [nm for _, nm in self.mem]:
                     fail(f"{self.tgt['func']}: {fi.cname} reads memory operand {i}, unknown to the caller")
                 vals[i] = atom(self.read_var(i).s)
-        for o in fi.oracles:
-            vals[o] = o
-            self.oracle_log.append(o)
-            if o not in self.oracles_used:
-                self.oracles_used.append(o)
-        if fi.is_oracle:
-            self.oracle_log.append(fi.lean)
-            if fi.lean not in self.oracles_used:
-                self.oracles_used.append(fi.lean)
         ins = [vals[i] for i in fi.inputs]
         if fi.has_ok:
             self.uses_ok.append(f"{fi.lean}_ok " + " ".join(ins))
@@ -1725,15 +1342,10 @@ class FuncInfo:
         self.out_types = {}
         self.ret = None
         self.has_ok = False
-        self.ltypes = {}
-        self.ret_ltype = None
         self.text = ""
         self.consts = {}
         self.param_outs = []
         self.mem = []
-        self.oracles = []          # oracle parameters (names) this function takes
-        self.is_oracle = False
-        self.otype = None          # Lean type of an oracle
 
 
 # =============================================================================== statements
@@ -1749,121 +1361,7 @@ def contains_exit(st, ok_mode):
         return contains_exit(st[2], ok_mode) or (st[3] is not None and contains_exit(st[3], ok_mode))
     if k in ("while", "for"):
         return contains_exit(st[-1], ok_mode)
-    if k == "switch":
-        return any(contains_exit(x, ok_mode) for x in st[2] if x[0] not in ("case", "default"))
     return False
-
-
-def is_const_expr(e):
-    if not isinstance(e, tuple) or not e:
-        return True
-    if e[0] in ("id", "call", "deref", "field", "assign", "preinc", "postinc", "addr"):
-        return False
-    if e[0] == "num":
-        return True
-    return all(is_const_expr(x) for x in e[1:] if isinstance(x, tuple))
-
-
-def always_exits(st):
-    if st is None:
-        return False
-    if st[0] == "return":
-        return True
-    if st[0] == "block":
-        return bool(st[1]) and always_exits(st[1][-1])
-    if st[0] == "if":
-        return always_exits(st[2]) and always_exits(st[3])
-    return False
-
-
-def is_empty(st):
-    return st is None or (st[0] == "block" and all(is_empty(x) for x in st[1]))
-
-
-def tailret(st, var, codes):
-    """st with every `return <constant>` in tail position replaced by `var = <code>`; None if st has a
-    return elsewhere (or of a non-constant)"""
-    if st is None:
-        return ("block", [])
-    k = st[0]
-    if k == "return":
-        if st[1] is None or not is_const_expr(st[1]):
-            return None
-        codes.append(st[1])
-        return ("expr", ("assign", "=", ("id", var), ("num", (len(codes), "", False))))
-    if k == "block":
-        if not st[1]:
-            return st
-        if any(contains_exit(x, False) for x in st[1][:-1]):
-            return None
-        last = tailret(st[1][-1], var, codes)
-        return None if last is None else ("block", st[1][:-1] + [last])
-    if k == "if":
-        a = tailret(st[2], var, codes)
-        b = tailret(st[3], var, codes)
-        return None if a is None or b is None else ("if", st[1], a, b)
-    return None if contains_exit(st, False) else st
-
-
-def has_break(st):
-    """does st contain a `break` that belongs to an enclosing switch (loops keep their own)"""
-    k = st[0]
-    if k == "break":
-        return True
-    if k == "block":
-        return any(has_break(x) for x in st[1])
-    if k == "if":
-        return has_break(st[2]) or (st[3] is not None and has_break(st[3]))
-    return False
-
-
-def debreak(stmts, fn):
-    """statement list of a switch case up to its `break`; `if (c) break; REST` becomes
-    `if (c) {} else { REST }`; any other nested break fails closed"""
-    out = []
-    for i, st in enumerate(stmts):
-        if st[0] == "break":
-            return out
-        if st[0] == "if" and st[3] is None and (st[2] == ("break",) or st[2] == ("block", [("break",)])):
-            out.append(("if", st[1], ("block", []), ("block", debreak(stmts[i + 1:], fn))))
-            return out
-        if has_break(st):
-            fail(f"{fn}: `break` nested inside a switch case in an unsupported position")
-        out.append(st)
-    return out
-
-
-def desugar_switch(st, swvar, fn):
-    items = st[2]
-    if items and items[0][0] not in ("case", "default"):
-        fail(f"{fn}: statements before the first case label")
-    groups, i = [], 0
-    while i < len(items):
-        if items[i][0] in ("case", "default"):
-            labels = []
-            while i < len(items) and items[i][0] in ("case", "default"):
-                labels.append(items[i])
-                i += 1
-            groups.append((labels, i))
-        else:
-            i += 1
-    default_body, chain = None, []
-    for labels, start in groups:
-        body = debreak([x for x in items[start:] if x[0] not in ("case", "default")], fn)
-        if any(l[0] == "default" for l in labels):
-            if default_body is not None:
-                fail(f"{fn}: two default labels")
-            default_body = body
-            continue
-        c = None
-        for l in labels:
-            t = ("bin", "==", ("id", swvar), l[1])
-            c = t if c is None else ("bin", "||", c, t)
-        chain.append((c, body))
-    node = ("block", default_body if default_body is not None else [])
-    for c, body in reversed(chain):
-        node = ("if", c, ("block", body), node)
-    return node
 
 
 def has_call(e, names):
@@ -1968,11 +1466,7 @@ class Body:
                         walk_e(y)
 
         def lv(e):
-            if e[0] == "id" and (e[1] in self._local or e[1] in tr.ptr_locals or e[1] in tr.aliases):
-                return None
-            if e[0] == "id" and e[1] in tr.local_structs:
-                for f in tr.struct_members(e[1]):
-                    add(f"{e[1]}_{f}")
+            if e[0] == "id" and e[1] in self._local:
                 return None
             return tr.lvalue(e)
 
@@ -1998,19 +1492,7 @@ class Body:
         elif k == "while":
             walk_e(st[1])
             self.assigned_in(st[2], acc)
-        elif k == "for":
-            for x in st[1:4]:
-                if x is not None:
-                    walk_e(x)
-            self.assigned_in(st[4], acc)
-        elif k == "switch":
-            walk_e(st[1])
-            saved = set(self._local)
-            for x in st[2]:
-                if x[0] not in ("case", "default"):
-                    self.assigned_in(x, acc)
-            self._local = saved
-        elif k in ("return", "assert", "break"):
+        elif k in ("return", "assert"):
             pass
         else:
             fail(f"{tr.tgt['func']}: statement {k} not supported here")
@@ -2031,11 +1513,7 @@ class Body:
         fn = tr.tgt["func"]
         if kind == "block":
             saved_vars = dict(tr.vars)
-            saved_ls = (dict(tr.local_structs), set(tr.ptr_locals))
-            saved_alias = dict(tr.aliases)
             inner = st[1]
-            tr.depth += 1
-            my_depth = tr.depth
 
             def after():
                 # leave scope: forget block-local declarations
@@ -2044,32 +1522,11 @@ class Body:
                         del tr.vars[v]
                         tr.defined.discard(v)
                         tr.varrange.pop(v, None)
-                tr.aliases = dict(saved_alias)
-                tr.local_structs, tr.ptr_locals = dict(saved_ls[0]), set(saved_ls[1])
-                tr.depth = my_depth - 1
                 return self.seq(rest, k)
             after.cheap = self.cheap_cont(rest, k)
             return self.seq(inner, after)
         if kind == "decl":
             (ty, nptr), nm, init = st[1], st[2], st[3]
-            if nptr and init is not None and not side_effect(init):
-                # local pointer initialised with an lvalue: an alias for that access path
-                if nm in tr.vars or nm in tr.aliases:
-                    fail(f"{fn}: local {nm} shadows another variable")
-                tr.aliases[nm] = tr.subst(init)
-                return self.seq(rest, k)
-            if nptr and init is None:
-                # pointer local: becomes an alias when it is assigned an access path
-                if nm in tr.vars or nm in tr.aliases or nm in tr.ptr_locals:
-                    fail(f"{fn}: local {nm} shadows another variable")
-                tr.ptr_locals.add(nm)
-                return self.seq(rest, k)
-            if not nptr and isinstance(ty, tuple) and ty[0] == "struct" and init is None:
-                if tr.is_struct_var(nm) or nm in tr.vars:
-                    fail(f"{fn}: local {nm} shadows another variable")
-                tr.local_structs[nm] = ty
-                tr.register_struct(nm, ty, defined=False)
-                return self.seq(rest, k)
             if nptr or not isinstance(ty, CT):
                 fail(f"{fn}: declaration of {nm}: only integer locals are supported")
             if nm in tr.vars:
@@ -2118,70 +1575,6 @@ class Body:
             return self.if_stmt(st, rest, k)
         if kind == "while":
             return self.while_stmt(st, rest, k)
-        if kind == "switch":
-            if side_effect(st[1]):
-                fail(f"{fn}: side effect in a switch expression")
-            tr.tmp += 1
-            sw = f"sw{tr.tmp}"
-            ty = promote(tr.ex(st[1]).ty)
-            chain = desugar_switch(st, sw, fn)
-            return self.seq([("decl", (ty, 0), sw, st[1]), chain] + rest, k)
-        if kind == "break":
-            fail(f"{fn}: `break` outside a supported position")
-        if kind == "for" and tr.tgt.get("unroll"):
-            init, c, step, body = st[1], st[2], st[3], st[4]
-            z = ("num", (0, "", False))
-            okh = init is not None and init[0] == "assign" and init[1] == "=" and init[2][0] == "id" and init[3] == z
-            iv = init[2][1] if okh else None
-            okh = okh and c is not None and c[0] == "bin" and c[1] == "<" and c[2] == ("id", iv) and c[3][0] == "num" and \
-                step in (("preinc", "+", ("id", iv)), ("postinc", "+", ("id", iv)))
-            if not okh or iv not in tr.vars or not 0 < c[3][1][0] <= 16:
-                fail(f"{fn}: for loop cannot be unrolled")
-            if has_break(body):
-                fail(f"{fn}: break in an unrolled loop")
-
-            def inst(e, kk):
-                if e == ("id", iv):
-                    return ("num", (kk, "", False))
-                if isinstance(e, tuple):
-                    if e and e[0] in ("assign", "preinc", "postinc") and e[2] == ("id", iv):
-                        fail(f"{fn}: the loop variable is assigned in the body")
-                    return tuple(inst(x, kk) if isinstance(x, tuple) else
-                                 ([inst(y, kk) for y in x] if isinstance(x, list) else x) for x in e)
-                return e
-            copies = [("block", [inst(body, kk)]) for kk in range(c[3][1][0])]
-            tr.defined.discard(iv)
-            return self.seq(copies + rest, k)
-        if kind == "for" and not tr.tgt.get("loop"):
-            # search loop: `for (i = 0; i < N; ++i) if (C(i)) { S; break; }`  =  `if (exists i < N, C(i)) S`
-            init, c, step, body = st[1], st[2], st[3], st[4]
-            while body[0] == "block" and len(body[1]) == 1:
-                body = body[1][0]
-            z = ("num", (0, "", False))
-            okh = init is not None and init[0] == "assign" and init[1] == "=" and init[2][0] == "id" and init[3] == z
-            iv = init[2][1] if okh else None
-            okh = okh and c is not None and c[0] == "bin" and c[1] == "<" and c[2] == ("id", iv) and \
-                step in (("preinc", "+", ("id", iv)), ("postinc", "+", ("id", iv)))
-            if not okh or iv not in tr.vars or tr.vars[iv] != INT:
-                fail(f"{fn}: for loop is not a supported search loop")
-            if not (body[0] == "if" and body[3] is None and body[2][0] == "block" and body[2][1] and
-                    body[2][1][-1] == ("break",) and not any(has_break(x) for x in body[2][1][:-1])):
-                fail(f"{fn}: for loop is not a supported search loop")
-            S = body[2][1][:-1]
-            if side_effect(c[3]) or side_effect(body[1]) or mentions(c[3], ("id", iv)) or \
-                    any(mentions(x, ("id", iv)) for x in S):
-                fail(f"{fn}: for loop is not a supported search loop")
-            bound = tr.conv(tr.ex(c[3]), INT)
-            bnd = bound.s if not tr.natty(INT) else f"Int.ofNat {atom(bound.s)}"
-            lv = iv + "_n"
-            tr.loopvars[iv] = lv
-            try:
-                ctext = tr.cond(body[1])
-            finally:
-                del tr.loopvars[iv]
-            tr.defined.discard(iv)
-            lc = ("lean_cond", f"anyBelow {atom(bnd)} (fun {lv} => decide ({ctext})) = true")
-            return self.seq([("if", lc, ("block", S), None)] + rest, k)
         if kind == "for":
             # `for (i = 0; i < width; ++i) BODY` over independent pixels: translate BODY, with the
             # memory operands of the target's `mem` map as variables
@@ -2220,7 +1613,6 @@ class Body:
 
     def bind(self, v, rhs_s, rest, k, mark, rng=None):
         tr = self.tr
-        tr.written.add(v)
         if rng is not None and tr.tgt.get("ranges") and tr.vars[v].lo <= rng[0] and rng[1] <= tr.vars[v].hi:
             tr.varrange[v] = rng
         else:
@@ -2239,24 +1631,6 @@ class Body:
         mark = len(tr.uses_ok)
         if e[0] == "comma":
             return self.seq([("expr", e[1]), ("expr", e[2])] + rest, k)
-        if e[0] == "assign" and e[1] == "=" and e[2][0] == "id" and e[2][1] in tr.ptr_locals:
-            if side_effect(e[3]):
-                fail(f"{fn}: side effect in a pointer assignment")
-            tr.aliases[e[2][1]] = tr.subst(e[3])
-            return self.seq(rest, k)
-        if e[0] == "assign" and e[1] == "=" and e[2][0] == "id" and e[2][1] in tr.local_structs:
-            # struct copy `x = *p` / `x = y`: member by member
-            src = e[3][1] if e[3][0] == "deref" else e[3]
-            if not (src[0] == "id" and tr.is_struct_var(src[1])):
-                fail(f"{fn}: struct assignment from something that is not a struct variable")
-            mem = tr.struct_members(e[2][1])
-            if mem != tr.struct_members(src[1]):
-                fail(f"{fn}: struct assignment between different struct types")
-            cp = [("expr", ("assign", "=", ("id", f"{e[2][1]}_{f}"), ("id", f"{src[1]}_{f}"))) for f in mem]
-            return self.seq(cp + rest, k)
-        if e[0] == "assign" and e[1] == "=" and e[3][0] == "assign" and e[3][1] == "=":
-            # a = b = c
-            return self.seq([("expr", e[3]), ("expr", ("assign", "=", e[2], e[3][2]))] + rest, k)
         if e[0] == "assign":
             op, lhs, rhs = e[1], e[2], e[3]
             v = tr.lvalue(lhs)
@@ -2282,8 +1656,8 @@ class Body:
             val = tr.conv(tr.binary(e[1], cur, tr.konst(1, INT)), ty, explicit=True)
             return self.bind(v, val.s, rest, k, mark)
         if e[0] == "call" and e[1] in tr.xmacros:
-            if not tr.natty(UINT):
-                fail(f"{fn}: combine32 macros are available in nat / mixed mode only")
+            if not tr.nat:
+                fail(f"{fn}: combine32 macros are available in nat mode only")
             if not tr.xmacros[e[1]][3]:
                 fail(f"{fn}: expression macro {e[1]} used as a statement")
             ins, outs = tr.xmacro_args(e[1], e[2])
@@ -2297,7 +1671,6 @@ class Body:
             for idx, v in enumerate(outs):
                 lines.append(f"let {lname(v)} := " + t + "".join(".2" for _ in range(idx)) + (".1" if idx < n - 1 else ""))
                 tr.varrange.pop(v, None)
-                tr.written.add(v)
                 tr.defined.add(v)
                 if v not in tr.assigned:
                     tr.assigned.append(v)
@@ -2312,7 +1685,8 @@ class Body:
         tr = self.tr
         fn = tr.tgt["func"]
         fi = tr.funcs[tr.tgt.get("calls", {}).get(call[1], call[1])]
-        tr.check_callee_types(fi)
+        if fi.mode != tr.mode:
+            fail(f"{fn}: {fi.cname} is translated in mode {fi.mode}")
         mark = len(tr.uses_ok)
         outmap = {}
         app = tr.call_text(fi, call[2], outmap)
@@ -2337,7 +1711,6 @@ class Body:
                 val = proj
             lines.append(f"let {lname(v)} := {val}")
             tr.varrange.pop(v, None)
-            tr.written.add(v)
             if v not in tr.assigned:
                 tr.assigned.append(v)
             tr.defined.add(v)
@@ -2396,16 +1769,6 @@ class Body:
         if c[0] == "bin" and c[1] == "&&" and side_effect(c[3]) and not side_effect(c[2]):
             inner = ("if", c[3], A, B)
             return self.seq([("if", c[2], ("block", [inner]), B)] + rest, k)
-        inner = c[2] if (c[0] == "un" and c[1] == "!") else c
-        if inner[0] == "call" and tr.tgt.get("calls", {}).get(inner[1], inner[1]) in tr.funcs and \
-                (tr.funcs[tr.tgt.get("calls", {}).get(inner[1], inner[1])].outs):
-            fi_ = tr.funcs[tr.tgt.get("calls", {}).get(inner[1], inner[1])]
-            if not isinstance(fi_.ret, CT):
-                fail(f"{fn}: condition on a call without an integer result")
-            tr.tmp += 1
-            tv = f"c{tr.tmp}"
-            c2 = ("id", tv) if inner is c else ("un", "!", ("id", tv))
-            return self.seq([("decl", (fi_.ret, 0), tv, inner), ("if", c2, A, B)] + rest, k)
         if side_effect(c):
             h = self.hoist(c)
             if h is None:
@@ -2413,8 +1776,6 @@ class Body:
             pre, c2 = h
             return self.seq(pre + [("if", c2, A, B)] + rest, k)
         mark = len(tr.uses_ok)
-        rmark = len(tr.read_log)
-        if_depth = tr.depth
         cs = tr.cond(c)
         if cs in ("True", "False"):
             chosen = A if cs == "True" else B
@@ -2423,78 +1784,12 @@ class Body:
         exits = contains_exit(A, self.ok) or contains_exit(Bs, self.ok)
         # continuation cheap to duplicate: nothing follows but building the result
         exits = exits or self.cheap_cont(rest, k)
-        state = (dict(tr.vars), set(tr.defined), dict(tr.varrange), set(tr.written))
+        state = (dict(tr.vars), set(tr.defined), dict(tr.varrange))
 
         def restore():
             tr.vars = dict(state[0])
             tr.defined = set(state[1])
             tr.varrange = dict(state[2])
-            tr.written = set(state[3])
-        guard = (always_exits(A) and is_empty(B)) or (always_exits(B) and is_empty(A))
-        if exits and not guard and not self.ok and not self.cheap_cont(rest, k):
-            codes = []
-            tr.tmp += 1
-            rv = f"ret{tr.tmp}"
-            st2 = tailret(("if", c, A, B), rv, codes)
-            if st2 is not None and codes and not contains_exit(st2, False):
-                z = ("num", (0, "", False))
-                tests = [("if", ("bin", "==", ("id", rv), ("num", (i + 1, "", False))), ("return", e), None)
-                         for i, e in enumerate(codes)]
-                # locals assigned on the continuing paths only: give them a (never used) value on the returning ones
-                acc = []
-                self._local = {rv}
-                self.assigned_in(st2, acc)
-                inits = [("expr", ("assign", "=", ("id", v), z)) for v in acc
-                         if v in tr.vars and v not in tr.defined and v != rv]
-                return self.seq([("decl", (INT, 0), rv, z)] + inits + [st2] + tests + rest, k)
-        if exits and tr.tgt.get("stages") and not self.ok and not self.cheap_cont(rest, k):
-            # both branches may fall through into a large continuation: the continuation becomes its own
-            # definition (a join point), called from every branch that reaches it
-            cap = {}
-
-            def kcap(tag):
-                def kc():
-                    cap[tag] = (dict(tr.vars), set(tr.defined), set(tr.written))
-                    return "⟦K⟧"
-                return kc
-            aux0 = len(tr.aux)
-            tmp0 = tr.tmp
-            ta = self.seq([A], kcap("a"))
-            restore()
-            tb = self.seq([Bs], kcap("b"))
-            restore()
-            if "a" in cap and "b" in cap:
-                va, da, wa = cap["a"]
-                vb, db, wb = cap["b"]
-                tr.vars = {v: t for v, t in va.items() if vb.get(v) == t}
-                tr.defined = {v for v in (da & db) if v in tr.vars}
-                tr.written = wa & wb
-                tr.varrange = {}
-                rmark2 = len(tr.read_log)
-                omark = len(tr.oracle_log)
-                entry_defined = set(tr.defined)
-                body = self.seq(rest, k)
-                ins = []
-                for n_ in tr.read_log[rmark2:]:
-                    if n_ in entry_defined and n_ not in ins:
-                        ins.append(n_)
-                ors = []
-                for o in tr.oracle_log[omark:]:
-                    if o not in ors:
-                        ors.append(o)
-                sname = f"{lname(tr.tgt.get('name', tr.tgt['func']))}_k{len(tr.aux) + 1}"
-
-                def aty(v):
-                    return ("Nat → " if v in tr.mem_indexed else "") + tr.ltype(tr.vars[v] if v in tr.vars else va[v])
-                sargs = " ".join(f"({lname(v)} : {aty(v)})" for v in ins) + \
-                    "".join(f" ({lname(o)} : {tr.funcs[o].otype})" for o in ors)
-                tr.aux.append((sname, f"/-- join point of `{tr.tgt['func']}`: the rest of the function after an "
-                                      f"if/switch both of whose sides may reach it -/\ndef {sname} {sargs} : ⟦RTY⟧ :=\n{self.ind(body)}\n"))
-                callk = f"{sname} " + " ".join([lname(v) for v in ins] + [lname(o) for o in ors])
-                ta, tb = ta.replace("⟦K⟧", callk), tb.replace("⟦K⟧", callk)
-                return self.okwrap(mark, f"if {cs} then\n{self.ind(ta)}\nelse\n{self.ind(tb)}")
-            del tr.aux[aux0:]
-            tr.tmp = tmp0
         if exits:
             # continuation is placed in every branch that falls through
             ta = self.seq([A] + rest, k)
@@ -2527,10 +1822,6 @@ class Body:
             for v in W:
                 if v not in tr.defined:
                     raise UndefInJoin(v)
-            for v in W:
-                tr.read_log.append(v)
-                if v not in tr.written:
-                    tr.input_reads.add(v)
             return lname(W[0]) if len(W) == 1 else "(" + ", ".join(lname(v) for v in W) + ")"
         if self.ok:
             # assertions inside the branches cannot occur here (exits would be true); calls with _ok may
@@ -2538,25 +1829,20 @@ class Body:
         tup.cheap = True
         okmark = len(tr.uses_ok)
         tmp0 = tr.tmp
-        aux0 = len(tr.aux)
         while True:
             # a variable without a value before the `if` that only one branch assigns is dead after
             # the join (a later read fails as "read before it is assigned"): leave it out of the join
             try:
                 ta = self.seq([A], tup)
                 da = set(tr.defined)
-                wa = set(tr.written)
                 restore()
                 tb = self.seq([Bs], tup)
                 db = set(tr.defined)
-                wb = set(tr.written)
                 restore()
-                tr.written |= (wa & wb)
                 break
             except UndefInJoin as u:
                 restore()
                 tr.tmp = tmp0
-                del tr.aux[aux0:]
                 del tr.uses_ok[okmark:]
                 W.remove(u.args[0])
                 if not W:
@@ -2568,30 +1854,12 @@ class Body:
                 if v not in tr.assigned:
                     tr.assigned.append(v)
         ta, tb = peep(ta), peep(tb)
-        tr.depth = if_depth
-        joined = f"if {cs} then\n{self.ind(ta, 4)}\n  else\n{self.ind(tb, 4)}"
-        if tr.tgt.get("stages") and not self.ok:
-            # top-level join of a staged function: its own definition (proof modularity)
-            ins = []
-            for n_ in tr.read_log[rmark:]:
-                if n_ in state[1] and n_ not in ins:
-                    ins.append(n_)
-            sname = f"{lname(tr.tgt.get('name', tr.tgt['func']))}_s{len(tr.aux) + 1}"
-
-            def aty(v):
-                return ("Nat → " if v in tr.mem_indexed else "") + tr.ltype(state[0][v])
-            sargs = " ".join(f"({lname(v)} : {aty(v)})" for v in ins)
-            srty = " × ".join(tr.ltype(state[0][v]) for v in W)
-            body_s = f"if {cs} then\n{self.ind(ta, 2)}\nelse\n{self.ind(tb, 2)}"
-            tr.aux.append((sname, f"/-- stage {len(tr.aux) + 1} of `{tr.tgt['func']}`: new value of "
-                                  f"({', '.join(W)}) -/\ndef {sname} {sargs} : {srty} :=\n{self.ind(body_s)}\n"))
-            joined = f"{sname} " + " ".join(lname(v) for v in ins)
         if len(W) == 1:
-            head = f"let {lname(W[0])} := {joined}"
+            head = f"let {lname(W[0])} := if {cs} then\n{self.ind(ta, 4)}\n  else\n{self.ind(tb, 4)}"
         else:
             tr.tmp += 1
             t = f"j{tr.tmp}"
-            head = f"let {t} := {joined}"
+            head = f"let {t} := if {cs} then\n{self.ind(ta, 4)}\n  else\n{self.ind(tb, 4)}"
             n = len(W)
             for idx, v in enumerate(W):
                 proj = t + "".join(".2" for _ in range(idx)) + (".1" if idx < n - 1 else "")
@@ -2611,7 +1879,7 @@ class Body:
             fail(f"{fn}: while loop is not one of the two supported forms")
         op, lhs, rhs = body[1][1], body[1][2], body[1][3]
         x = tr.lvalue(lhs)
-        if tr.natty(INT):
+        if tr.nat:
             fail(f"{fn}: while loop in nat mode")
         if tr.vars[x] != INT:
             fail(f"{fn}: loop variable must be an int")
@@ -2665,44 +1933,7 @@ def split_top(s):
     return parts
 
 
-def make_oracles(env, tgt, funcs):
-    """FuncInfo of every `extern` function of the target: a parameter of the generated definition"""
-    out = dict(funcs)
-    helper = Translator(env, tgt)
-    for oname, spec in tgt.get("extern", {}).items():
-        fo = FuncInfo()
-        fo.cname, fo.lean, fo.mode, fo.is_oracle = oname, lname(oname), tgt.get("mode", "int"), True
-        fo.ret = env.resolve(spec["ret"].split())
-        if not isinstance(fo.ret, CT):
-            fail(f"{oname}: oracle result type must be an integer type")
-        fo.ret_ltype = helper.ltype(fo.ret)
-        for idx, par in enumerate(spec["params"]):
-            pn = f"p{idx}"
-            if par[0] == "same":
-                fo.cparams.append((pn, "same", par[1]))
-            elif par[0] == "struct":
-                ty = env.resolve([par[1]])
-                tmp = Translator(env, dict(tgt, structs={pn: par[1]}))
-                mem = tmp.register_struct(pn, ty, True)
-                for v in mem:
-                    fo.inputs.append(v)
-                    fo.input_types[v] = tmp.vars[v]
-                    fo.outs.append(v)
-                    fo.out_types[v] = tmp.vars[v]
-                    fo.ltypes[v] = helper.ltype(tmp.vars[v])
-                fo.cparams.append((pn, "struct", ty))
-            else:
-                fail(f"{oname}: oracle parameter kind {par[0]} unknown")
-        fo.otype = " → ".join([fo.ltypes[v] for v in fo.inputs] +
-                              [" × ".join([fo.ret_ltype] + [fo.ltypes[v] for v in fo.outs])])
-        if oname in out:
-            fail(f"{oname}: both translated and declared extern")
-        out[oname] = fo
-    return out
-
-
 def translate_function(env, tgt, funcs):
-    funcs = make_oracles(env, tgt, funcs)
     name = tgt["func"]
     header, ptext, btext = find_function(env.text, name)
     hw = [w for w in header if w not in QUALS]
@@ -2797,45 +2028,9 @@ def translate_function(env, tgt, funcs):
             ast = pp.expr()
             if pp.i != len(pp.t):
                 fail(f"{name}: memory operand {cexpr!r} not understood")
-            indexed = None
-            if isinstance(nm, tuple):
-                nm, tyname = nm[0], nm[1]
-                roots = {pn: (pt, pnp) for pn, pt, pnp in params}
-                if tyname == "ptr":
-                    t = env.path_type(ast, roots)
-                    okp = (t[1] >= 1 and t[2] == 0) or \
-                          (t[1] == 0 and t[2] == 0 and t[0] == ("unknown",))
-                    if t[0] == ("unknown",):
-                        # member whose declaration is a function-pointer typedef
-                        fld = ast[2] if ast[0] == "field" else None
-                        decl_ok = False
-                        if fld is not None:
-                            st = env.path_type(ast[1], roots)
-                            body = env.structs.get(st[0][1], "") if isinstance(st[0], tuple) and st[0][0] == "struct" else ""
-                            mm = re.search(r"(\w+)\s+" + re.escape(fld) + r"\s*(?:;|$)", body)
-                            decl_ok = bool(mm) and env.is_funcptr_typedef(mm.group(1))
-                        okp = decl_ok
-                    if not okp:
-                        fail(f"{name}: memory operand {cexpr!r} is not a pointer")
-                    cty = ULONG
-                elif tyname == "bool":
-                    cty = INT       # a whole sub-expression the translator does not interpret; 0/1
-                else:
-                    cty = env.resolve(tyname.split())
-                    if not isinstance(cty, CT):
-                        fail(f"{name}: type {tyname} of memory operand {cexpr!r} is not an integer type")
-                    t = env.path_type(ast, roots)
-                    if t[1] or t[2] or t[0] != cty:
-                        fail(f"{name}: memory operand {cexpr!r} has C type {t}, not {tyname}")
-                if len(nm.split("@")) == 2:
-                    nm, indexed = nm.split("@")
-            else:
-                cty = UINT
             tr.mem.append((ast, nm))
-            tr.vars[nm] = cty
+            tr.vars[nm] = UINT
             tr.defined.add(nm)
-            if indexed:
-                tr.mem_indexed[nm] = indexed
         tr.xmacros = tgt.get("_xmacros", {})
         return cparams
 
@@ -2849,8 +2044,6 @@ def translate_function(env, tgt, funcs):
             for o in final_outs:
                 if o not in tr.defined:
                     fail(f"{name}: result {o} has no value on some path")
-                if o not in tr.written:
-                    tr.input_reads.add(o)
             if not parts:
                 fail(f"{name}: void function without results")
             return parts[0] if len(parts) == 1 else "(" + ", ".join(parts) + ")"
@@ -2897,10 +2090,10 @@ def translate_function(env, tgt, funcs):
             inputs.append(nm)
         elif k == "struct":
             for v in param_vars:
-                if v.startswith(nm + "_") and v in tr.input_reads and v not in inputs:
+                if v.startswith(nm + "_") and lname(v) in used and v not in inputs:
                     inputs.append(v)
     for _, nm in tr.mem:
-        if nm in tr.input_reads or (nm in tr.mem_indexed and nm in tr.read_log):
+        if lname(nm) in used:
             inputs.append(nm)
     oktext = None
     if has_assert:
@@ -2912,111 +2105,27 @@ def translate_function(env, tgt, funcs):
                     if v.startswith(nm + "_") and lname(v) in used2 and v not in inputs:
                         inputs.append(v)
     fi.cparams = cparams
-    inputs = list(inputs) + list(tr.oracles_used)
     fi.inputs = inputs
-    fi.input_types = {v: param_vars[v] for v in inputs if v in param_vars}
+    fi.input_types = {v: param_vars[v] for v in inputs}
     fi.outs = final_outs
     fi.out_types = {v: param_vars[v] for v in final_outs}
     fi.ret = ret
     fi.has_ok = has_assert
-    rtypes = (["Int", "Int"] if ret == "malloc" else [tr.ltype(ret)] if ret is not None else []) + \
-             [tr.ltype(param_vars[o]) for o in final_outs]
-    if ret == "malloc" and fi.mode != "int":
-        fail(f"{name}: malloc-returning functions are translated in int mode")
-    rty = " × ".join(rtypes)
-    def argty(v):
-        return ("Nat → " if v in tr.mem_indexed else "") + tr.ltype(param_vars[v])
-    args = " ".join(f"({lname(v)} : {argty(v)})" for v in inputs if v in param_vars)
-    for o in tr.oracles_used:
-        if o not in funcs or not funcs[o].is_oracle:
-            fail(f"{name}: a callee needs the extern function {o}; declare it under `extern` here too")
-        args += f" ({lname(o)} : {funcs[o].otype})"
-    fi.oracles = list(tr.oracles_used)
-    fi.ltypes = {v: tr.ltype(param_vars[v]) for v in list(inputs) + list(final_outs) if v in param_vars}
-    fi.ret_ltype = None if ret is None or ret == "malloc" else tr.ltype(ret)
-    sig_c = ", ".join([f"{v} : {param_vars[v].cname()}" if v in param_vars else f"{v} : extern function" for v in inputs] +
+    T = "Nat" if fi.mode == "nat" else "Int"
+    nres = (2 if ret == "malloc" else 1 if ret is not None else 0) + len(final_outs)
+    rty = " × ".join([T] * nres)
+    args = " ".join(f"({lname(v)} : {T})" for v in inputs)
+    sig_c = ", ".join([f"{v} : {param_vars[v].cname()}" for v in inputs] +
                       [f"{c} = {v} (specialised)" for c, v in tgt.get("consts", {}).items()])
     res_c = ", ".join((["malloc called : 0/1, size : uint64_t"] if ret == "malloc" else [f"return : {ret.cname()}"] if ret is not None else []) + [f"{o} : {param_vars[o].cname()}" for o in final_outs])
     pre = "".join(f"  Precondition: {v} >= 0." for v in tgt.get("nonneg", [])) + \
           "".join(f"  Precondition: {lo} <= {v} <= {hi}." for v, (lo, hi) in tgt.get("ranges", {}).items())
     doc = f"/-- `{tgt['file']}:{name}` ({fi.mode} mode).  Arguments: {sig_c}.  Result: ({res_c}).{pre} -/"
-    out = "".join(t.replace("⟦RTY⟧", rty) + "\n" for _, t in tr.aux) + f"{doc}\ndef {fi.lean} {args} : {rty} :=\n{Body.ind(None, text)}\n"
+    out = f"{doc}\ndef {fi.lean} {args} : {rty} :=\n{Body.ind(None, text)}\n"
     if has_assert:
         out += f"\n/-- every `assert` reached by `{name}` holds (`false` = the C function aborts) -/\n" \
                f"def {fi.lean}_ok {args} : Bool :=\n{Body.ind(None, oktext)}\n"
     fi.text = out
-    return fi
-
-
-def translate_condition(env, tgt):
-    """kind "cond": the condition of the k-th `if`/`while` of a function (in source order), as a Bool-valued
-    definition of the memory operands it reads.  `expect`: identifiers that must occur in it (so that an inserted
-    or removed statement, which shifts the numbering, fails closed instead of selecting another test)"""
-    name = tgt["func"]
-    header, ptext, btext = find_function(env.text, name)
-    toks = lex(btext)
-    conds = []
-    i = 0
-    while i < len(toks):
-        if toks[i] in (("id", "if"), ("id", "while")) and i + 1 < len(toks) and toks[i + 1] == ("op", "("):
-            j, d = i + 2, 1
-            while j < len(toks) and d:
-                if toks[j] == ("op", "("):
-                    d += 1
-                elif toks[j] == ("op", ")"):
-                    d -= 1
-                j += 1
-            conds.append(toks[i + 2:j - 1])
-            i += 2
-        else:
-            i += 1
-    k = tgt["index"]
-    if k >= len(conds):
-        fail(f"{name}: has only {len(conds)} conditions")
-    ctoks = conds[k]
-    ids = {t[1] for t in ctoks if t[0] == "id"}
-    for w in tgt.get("expect", []):
-        if w not in ids:
-            fail(f"{name}: condition {k} does not mention {w} (the numbering of the tests changed?)")
-    pp = Parser(ctoks, env)
-    ast = pp.expr()
-    if pp.i != len(ctoks):
-        fail(f"{name}: condition {k} not understood")
-    params = parse_params(ptext, env)
-    tr = Translator(env, tgt)
-    roots = {pn: (pt, pnp) for pn, pt, pnp in params}
-    for cexpr, spec in tgt.get("mem", {}).items():
-        q = Parser(lex(cexpr), env)
-        mast = q.expr()
-        if q.i != len(q.t):
-            fail(f"{name}: memory operand {cexpr!r} not understood")
-        nm, tyname = spec
-        if tyname == "bool":
-            cty = INT
-        elif tyname == "ptr":
-            cty = ULONG
-            t = env.path_type(mast, roots)
-            if not (t[1] >= 1 and t[2] == 0):
-                fail(f"{name}: memory operand {cexpr!r} is not a pointer")
-        else:
-            cty = env.resolve(tyname.split())
-            t = env.path_type(mast, roots)
-            if not isinstance(cty, CT) or t[1] or t[2] or t[0] != cty:
-                fail(f"{name}: memory operand {cexpr!r} has C type {t}, not {tyname}")
-        tr.mem.append((mast, nm))
-        tr.vars[nm] = cty
-        tr.defined.add(nm)
-    ctext = tr.cond(ast)
-    ins = []
-    for n_ in tr.read_log:
-        if n_ not in ins:
-            ins.append(n_)
-    fi = FuncInfo()
-    fi.cname, fi.lean, fi.mode = name, lname(tgt["name"]), tr.mode
-    args = " ".join(f"({lname(v)} : {tr.ltype(tr.vars[v])})" for v in ins)
-    sig = ", ".join(f"{v} : {tr.vars[v].cname()}" for v in ins)
-    fi.text = (f"/-- `{tgt['file']}:{name}`, condition of test #{k} ({tr.mode} mode).  Arguments: {sig}. -/\n"
-               f"def {fi.lean} {args} : Bool :=\n  decide ({ctext})\n")
     return fi
 
 
@@ -3057,10 +2166,6 @@ def main():
                 envs[key] = Env(preprocess(repo, tgt["file"], scratch, tgt.get("defs", ()),
                                            keep_macros=set(xm) if tgt.get("xmacros") else None))
             env = envs[key]
-            if tgt.get("kind") == "cond":
-                fi = translate_condition(env, tgt)
-                chunks.append(fi.text)
-                continue
             fi = translate_function(env, tgt, funcs)
             funcs[tgt.get("name", tgt["func"])] = fi
             chunks.append(fi.text)
